@@ -48,6 +48,11 @@ var scripts = []script{
 	{"nonterminating", "var q = 0; try { while(true){ q++ } } catch (e) { q = -1 } ", "'swallowed'", ""},
 	{"nonterminating", "var q = 0; try { for(;;){ q++ } } finally { q = -2 } ", "'after finally'", ""},
 	{"nonterminating", "var q = 0; while (true) { try { q++ } catch (e) { } } ", "1", ""},
+	// the value of the last expression is read after the script has run: an object whose
+	// properties are computed by getters still runs script code at that point
+	{"value", "", "({get a(){ var t = 0; for (var i = 0; i < 10; i++) { t += i; } return t; }, b: 2})", "map[a:45 b:2]"},
+	{"value", "var o = {}; Object.defineProperty(o, 'c', {enumerable: true, get: function(){ var u = 1; u = u + 1; u = u * 3; return u; }}); ", "o", "map[c:6]"},
+	{"nonterminating", "", "({get a(){ var q = 0; while(true){ q++ } }})", ""},
 }
 
 type tcase struct {
